@@ -741,6 +741,25 @@ class SP(Robot):
                 bottom_plate_pos = old_bottom_plate_transform, protect = True)
         return inverse_jacobian
 
+    def jacobianBody(self, top_plate_pos : tm = None,
+            bottom_plate_pos : tm = None, protect : bool = True) -> 'np.ndarray[float]':
+        """
+        Calculate the Body (top plate frame) Jacobian. Optionally use top and bottom transforms.
+
+        Args:
+            top_plate_pos (tm): top plate transformation in space frame
+            bottom_plate_pos (tm): bottom plate transformation in space frame
+            protect (Bool): Boolean to bypass error detection and correction. Bypass if True
+
+        Returns:
+            ndarray(Float): Body Jacobian for the given (or current) configuration
+        """
+        #The frame change has to use the pose the Jacobian is evaluated at
+        if top_plate_pos is None:
+            top_plate_pos = self.getTopT()
+        return top_plate_pos.inv().adjoint() @ self.jacobian(
+            top_plate_pos, bottom_plate_pos, protect)
+
     """ 
     Force Calculations
     """
